@@ -206,3 +206,150 @@ def rule_delay(ck, facts, R, want=("vm", "wasm")):
                 ck.ok(R, key, {"what": what, ref_name: a, w: b})
             else:
                 ck.bad(R, key, "`delay` disagrees between %s and %s on %s: %s computes %s, %s computes %s (L = ring length, t = delay time, w = write index, d = delay in samples): for some delay times the two read different samples" % (impls[ref_name].short, impls[w].short, what, ref_name, a, w, b), "%s ; %s" % (impls[ref_name].where(), impls[w].where()))
+
+
+# --------------------------------------------------------------------------------------------------
+# array index normalisation: VM GetArrayElem/SetArrayElem arm  vs  WASM (numeric conversion emitted by the
+# generator, then the clamp of the host function)
+import math as _math
+
+
+def _sat(x):
+    if _math.isnan(x):
+        return 0
+    if x >= 9.223372036854775807e18:
+        return 2**63 - 1
+    if x <= -9.223372036854775808e18:
+        return -(2**63)
+    return int(x)
+
+
+def _vm_index_eval(expr, conds, x, n):
+    """evaluate the VM's index template (path conditions + value) for index value x and array length n"""
+
+    def ev(e):
+        e = _strip(e)
+        k = e[0]
+        if k == "k":
+            return e[1]
+        if k == "cast":
+            v = ev(e[2])
+            if e[1] == "FloatToInt":
+                return _sat(v)
+            return v
+        if k == "call":
+            nme = e[1].split("::")[-1]
+            if nme in ("get_as", "to_value"):
+                return x
+            if nme == "get_length_array" or nme == "len":
+                return n
+            if nme == "is_finite":
+                v = ev(e[2][0])
+                return not (_math.isnan(v) or _math.isinf(v))
+            if nme == "clamp":
+                v, lo, hi = (ev(a) for a in e[2])
+                return max(lo, min(hi, v))
+            if nme == "saturating_sub":
+                a, b = ev(e[2][0]), ev(e[2][1])
+                return max(0, a - b)
+            raise ValueError("call %s" % nme)
+        if k == "bin":
+            a, b = ev(e[2]), ev(e[3])
+            return {"eq": a == b, "ne": a != b, "lt": a < b, "le": a <= b, "gt": a > b, "ge": a >= b, "sub": a - b, "add": a + b}[e[1]]
+        if k == "fld" and e[2] == 0 and _strip(e[1])[0] == "bin":
+            b = _strip(e[1])
+            a, c = ev(b[2]), ev(b[3])
+            return a - c if b[1].startswith("sub") else a + c
+        raise ValueError("expr %s" % k)
+
+    for c, v, pos in conds:
+        try:
+            cv = int(ev(c))
+        except (ValueError, KeyError):
+            continue
+        if pos and cv != v:
+            return None
+        if (not pos) and cv in v:
+            return None
+    return ev(expr)
+
+
+def rule_array_index(ck, facts, R):
+    from .. import roles
+    from ..rules import cover
+
+    ck.rule(R + " (array index)", "the element index used by the VM's GetArrayElem/SetArrayElem arms for an f64 index value equals the one the WASM path computes (numeric conversion emitted by the generator followed by the clamp of the host function), on NaN, ±inf, negative, fractional and huge indices")
+    vd = roles.vm_dispatch(facts)
+    lang = facts.crate("mimium_lang")
+    if vd is None:
+        return
+    # WASM conversion: the helper that loads a value "as numeric i64"
+    conv = [f for f in lang.fns if "::compiler::wasmgen" in f.path and f.short.endswith("emit_value_load_as_numeric_i64")]
+    conv_instrs = set()
+    for f in conv:
+        for g in facts.family("mimium_lang", f.path):
+            for b, s in g.all_stmts():
+                if s[KIND] == "a" and s[5][0] == "agg" and s[5][1][0] == "adt" and "wasm_encoder" in s[5][1][1] and s[5][1][3].startswith(("I64Trunc", "I32Trunc")):
+                    conv_instrs.add(s[5][1][3])
+    ck.require(R, len(conv) == 1 and conv_instrs, "anchor|numeric-index-conversion", "the WASM generator's numeric index conversion helper was not found")
+    produced = set(cover.constructed_variants([f for f in roles.non_derived(facts) if f.path != vd.fn.path], roles.VM_INSTR))
+    for arm, host_suffix in (("GetArrayElem", "array_get_elem_host"), ("SetArrayElem", "array_set_elem_host")):
+        if arm not in produced:
+            ck.note("array index: VM instruction %s is never constructed by the bytecode generator (dormant arm, not compared)" % arm)
+            continue
+        host = [f for f in lang.fns if f.short.endswith("runtime::wasm::" + host_suffix)]
+        if arm not in vd.primary_handled() or len(host) != 1:
+            ck.bad(R, "anchor|array-index|%s" % arm, "VM arm %s or host function %s not found" % (arm, host_suffix))
+            continue
+        # VM template
+        sx = SymEx(vd.fn, payload_place=vd.primary.place, max_paths=64, facts=facts)
+        try:
+            paths = sx.run(vd.arm_target(arm), stop_blocks=[vd.primary.block])
+        except PathLimit:
+            paths = sx.paths
+        cand = [l for l, nme in vd.fn.dbg_names().items() if nme == "index_int"]
+        vm_t = [(p.conds, p.env[l]) for p in paths for l in cand if l in p.env and p.end in ("stop", "loop")]
+        # host clamp
+        sxh = SymEx(host[0], max_paths=200, max_steps=12000, facts=facts)
+        try:
+            hp = sxh.run(0)
+        except PathLimit:
+            hp = sxh.paths
+        clamps = set()
+        for p in hp:
+            for e in p.events:
+                if e[0] == "call" and e[1].endswith("::clamp"):
+                    lo = _strip(e[2][1])
+                    clamps.add((repr(_strip(e[2][0]))[:40], lo[1] if lo[0] == "k" else None, "sub" in repr(e[2][2]) or "max_idx" in repr(e[2][2])))
+        if not vm_t or len(clamps) != 1:
+            ck.bad(R, "unanalysable|array-index|%s" % arm, "array index templates could not be extracted (vm paths %d, host clamps %d)" % (len(vm_t), len(clamps)), vd.fn.where())
+            continue
+        _, lo, upper_is_len_minus_1 = list(clamps)[0]
+        sat = all("Sat" in c for c in conv_instrs)
+
+        def wasm_idx(x, n):
+            if sat:
+                i = _sat(x)
+            else:
+                if _math.isnan(x) or abs(x) >= 9.3e18:
+                    return "trap"
+                i = int(x)
+            hi = n - 1 if upper_is_len_minus_1 else n
+            return max(lo if lo is not None else 0, min(hi, i))
+
+        bad = None
+        pts = 0
+        for n in (1, 3, 8):
+            for x in (float("nan"), float("inf"), float("-inf"), -1.0, -0.5, 0.0, 0.5, 1.0, 2.7, 7.0, 8.0, 1e30, -1e30):
+                pts += 1
+                vals = [v for v in (_vm_index_eval(e, c, x, n) for c, e in vm_t) if v is not None]
+                if not vals:
+                    continue
+                w = wasm_idx(x, n)
+                if vals[0] != w:
+                    bad = bad or (x, n, vals[0], w)
+        key = "array-index|%s" % arm
+        if bad:
+            ck.bad(R, key, "array index %r into an array of %d elements selects element %s on the VM (%s arm) and element %s on WASM (%s then the host's clamp): the two back ends read/write different elements" % (bad[0], bad[1], bad[2], arm, bad[3], "+".join(sorted(conv_instrs))), vd.fn.where())
+        else:
+            ck.ok(R, key, {"arm": arm, "points": pts, "wasm_conversion": sorted(conv_instrs)})
